@@ -131,13 +131,23 @@ class GMRF(Distribution):
         elif (bc_type == 'periodic') or (bc_type == 'neumann'):
             print("Warning (GMRF): Periodic and Neumann boundary conditions are experimental. Sampling using LinearRTO may not produce fully accurate results.")
             eps = np.finfo(float).eps
-            self._rank = self.dim - 1   #np.linalg.matrix_rank(self.L.todense())
+            # Dimension of the null space of the precision: none for order 0 (identity), the constants for
+            # first differences and periodic second differences, the affine functions (per axis) for
+            # second differences with neumann boundary conditions.
+            if order == 0:
+                nullity = 0
+            elif order == 2 and bc_type == 'neumann':
+                nullity = 2**self._physical_dim
+            else:
+                nullity = 1
+            self._rank = self.dim - nullity
             self._chol = sparse_cholesky(self._prec_op + np.sqrt(eps)*eye(self.dim, dtype=int)).T
             if (self.dim > config.MAX_DIM_INV):  # approximate to avoid 'excessive' time
                 self._logdet = 2*sum(np.log(self._chol.diagonal()))
             else:
-                self._L_eigval = splinalg.eigsh(self._prec_op.get_matrix(), self._rank, which='LM', return_eigenvectors=False)
-                self._logdet = sum(np.log(self._L_eigval))
+                self._L_eigval = splinalg.eigsh(self._prec_op.get_matrix(), self.dim - 1, which='LM', return_eigenvectors=False)
+                eigval = np.linalg.eigvalsh(self._prec_op.get_matrix().toarray())  # ascending
+                self._logdet = np.sum(np.log(eigval[nullity:]))
         else:
             raise ValueError('bc_type must be "zero", "periodic" or "neumann"')
 
